@@ -919,6 +919,8 @@ theorem sync_async_agree (samePkg : Bool) (req : ReqArg) (bs : List Bound)
               applySync_noargs true bs r (hasFlattened_false hf)]
 
 
+/-! ## 4. The rendered attribute path -/
+
 section Aux
 theorem pyKeyword_reserved (s : String) (h : pyKeyword s = true) : reserved s = true := by
   have key : ∀ w ∈ Pinned.pyKeywords, Pinned.reservedNames.contains w = true := by decide
@@ -930,30 +932,31 @@ theorem reserved_suffix_not_keyword (s : String) (h : reserved s = true) : pyKey
   simp only [reserved, List.contains_iff_mem] at h
   exact key s h
 
+theorem segKey_not_keyword (s : String) : pyKeyword (segKey s) = false := by
+  unfold segKey
+  by_cases hr : reserved s = true
+  · simp only [hr, if_true]; exact reserved_suffix_not_keyword s hr
+  · simp only [hr, Bool.false_eq_true, if_false]
+    cases hk : pyKeyword s
+    · rfl
+    · exact absurd (pyKeyword_reserved s hk) hr
+
 theorem resolve_of_getField (sch : Schema) :
     ∀ (segs : List String) (m : MsgDef) (pre : List Link) (last : Link),
       getField sch m segs = .ok (pre, last) →
-      (∀ s ∈ segs.dropLast, reserved s = false) →
-      segs.getLast? = some last.field.pbName →
-      resolveAttrs sch m (suffixLast (if reserved last.field.pbName then "_" else "") segs)
-        = some ((pre ++ [last]).map (·.field))
-  | [], m, pre, last, h, _, _ => by simp [getField] at h
-  | [l], m, pre, last, h, _, hl => by
+      resolveAttrs sch m (segs.map segKey) = some ((pre ++ [last]).map (·.field))
+  | [], m, pre, last, h => by simp [getField] at h
+  | [l], m, pre, last, h => by
     simp only [getField] at h
     split at h
     · simp at h
     · rename_i f hf
       simp only [Except.ok.injEq, Prod.mk.injEq] at h
       obtain ⟨rfl, rfl⟩ := h
-      simp only [List.getLast?_singleton, Option.some.injEq] at hl
-      simp only [suffixLast, resolveAttrs, attrResolves]
-      have : l ++ (if reserved f.pbName then "_" else "") = segKey l := by
-        rw [← hl]; unfold segKey; split <;> simp
-      rw [this, hf]; rfl
-  | a :: b :: rest, m, pre, last, h, hnr, hl => by
-    have ha : reserved a = false := hnr a (by simp [List.dropLast])
-    have hka : segKey a = a := by simp [segKey, ha]
-    simp only [getField, hka] at h
+      simp only [List.map_cons, List.map_nil, resolveAttrs, attrResolves, hf]
+      rfl
+  | a :: b :: rest, m, pre, last, h => by
+    simp only [getField] at h
     split at h
     · simp at h
     · rename_i f hf
@@ -970,64 +973,39 @@ theorem resolve_of_getField (sch : Schema) :
               simp only [Except.ok.injEq, Prod.mk.injEq] at h
               obtain ⟨rfl, rfl⟩ := h
               have ih := resolve_of_getField sch (b :: rest) sub pre' last' hrec
-                (fun s hs => hnr s (by simp only [List.dropLast_cons_cons, List.mem_cons]; right; exact hs))
-                (by simpa using hl)
-              simp only [suffixLast]
-              cases hsl : suffixLast (if reserved last'.field.pbName then "_" else "") (b :: rest) with
-              | nil => rw [hsl] at ih; simp [resolveAttrs] at ih
-              | cons b' rest' =>
-                rw [hsl] at ih
-                simp only [resolveAttrs, attrResolves, hf, hk, hsub, ih]
-                rfl
+              simp only [List.map_cons] at ih ⊢
+              simp only [resolveAttrs, attrResolves, hf, hk, hsub, ih]
+              rfl
         · simp at h
 end Aux
 
-
-/-! ## 4. The rendered attribute path -/
-
-section Aux
-theorem mem_suffixLast (sfx : String) : ∀ (segs : List String) (a : String), a ∈ suffixLast sfx segs →
-    a ∈ segs.dropLast ∨ ∃ l, segs.getLast? = some l ∧ a = l ++ sfx
-  | [], a, h => by simp [suffixLast] at h
-  | [l], a, h => by
-    simp only [suffixLast, List.mem_singleton] at h
-    exact Or.inr ⟨l, by simp, h⟩
-  | x :: y :: rest, a, h => by
-    simp only [suffixLast, List.mem_cons] at h
-    rcases h with h | h
-    · left; simp [List.dropLast, h]
-    · rcases mem_suffixLast sfx (y :: rest) a h with h' | ⟨l, hl, ha⟩
-      · left; simp only [List.dropLast_cons_cons, List.mem_cons]; right; exact h'
-      · right; exact ⟨l, by simpa using hl, ha⟩
-end Aux
-
-/-- **Every rendered `request.<key>` is a legal attribute path that proto-plus resolves to the very
-fields `get_field` found** — provided no segment BEFORE the last is a reserved word (forced: the
-code suffixes only the end of the dotted string; see `key_attr_counterexample`) and the signature
-names the last field by its proto name. -/
+/-- **Every rendered `request.<key>` is a legal attribute path that resolves to the very fields
+`get_field` found** — for EVERY signature path `get_field` accepts, reserved words and keywords in
+any position included (since the `fix:` commit a0434d5 every reserved segment is suffixed; before it
+this needed "no reserved word before the last segment", DESIGN §9-F2). -/
 theorem key_attr_resolves (sch : Schema) (input : MsgDef) (segs : List String) (pre : List Link) (last : Link)
-    (h : getField sch input segs = .ok (pre, last))
-    (hnr : ∀ s ∈ segs.dropLast, reserved s = false)
-    (hl : segs.getLast? = some last.field.pbName) :
+    (h : getField sch input segs = .ok (pre, last)) :
     (∀ a ∈ (⟨segs, pre, last⟩ : Entry).keySegs, pyKeyword a = false) ∧
     resolveAttrs sch input (⟨segs, pre, last⟩ : Entry).keySegs = some ((⟨segs, pre, last⟩ : Entry).links.map (·.field)) := by
-  refine ⟨?_, resolve_of_getField sch segs input pre last h hnr hl⟩
+  refine ⟨?_, resolve_of_getField sch segs input pre last h⟩
   intro a ha
-  rcases mem_suffixLast _ segs a ha with h1 | ⟨l, hl', rfl⟩
-  · cases hk : pyKeyword a
-    · rfl
-    · have := pyKeyword_reserved a hk
-      rw [hnr a h1] at this; cases this
-  · have hle : l = last.field.pbName := by rw [hl] at hl'; exact (Option.some.inj hl').symm
-    subst hle
-    simp only [Entry.suffix, Entry.field]
-    by_cases hr : reserved last.field.pbName = true
-    · simp only [hr, if_true]
-      exact reserved_suffix_not_keyword _ hr
-    · simp only [hr, Bool.false_eq_true, if_false, String.append_empty]
-      cases hk : pyKeyword last.field.pbName
-      · rfl
-      · exact absurd (pyKeyword_reserved _ hk) hr
+  obtain ⟨s, _, rfl⟩ := List.mem_map.mp ha
+  exact segKey_not_keyword s
+
+/-- hence the emitted module never fails on a keyword used as an attribute name: `emitCheck` can only
+object to a duplicated parameter name. -/
+theorem emit_never_keyword_attr (es : List Entry) (k : String) : emitCheck es ≠ .error (.keywordAttr k) := by
+  unfold emitCheck
+  split
+  · simp
+  · split
+    · rename_i e he
+      have := List.find?_some he
+      simp only [List.any_eq_true] at this
+      obtain ⟨a, ha, hk⟩ := this
+      obtain ⟨s, _, rfl⟩ := List.mem_map.mp ha
+      rw [segKey_not_keyword s] at hk; cases hk
+    · simp
 
 /-! ## Concrete inputs: non-vacuity and counterexamples -/
 
@@ -1052,27 +1030,19 @@ example : (match fieldsMappingP exSchema false exReq [["parent"], ["book", "inne
     | .ok es => es.map (fun e => (e.key, e.param, e.path))
     | .error _ => []) =
     [("parent", "parent", [1]), ("book.inner.title", "title", [2, 5, 4]), ("class_", "class_", [3]),
-     ("book.type.class_", "class_", [2, 1, 1])] := by decide
+     ("book.type_.class_", "class_", [2, 1, 1])] := by decide
 
-/-- `key_attr_resolves` is not vacuous: its hypotheses hold for `book.inner.class` -/
-example : getField exSchema exReq ["book", "inner", "class"] =
-      .ok ([⟨"acme.Req", true, ⟨"book", 2, .message "acme.Book", false, false, false⟩⟩,
-            ⟨"acme.Book", true, ⟨"inner", 5, .message "acme.Inner", false, false, false⟩⟩],
-           ⟨"acme.Inner", true, ⟨"class", 1, .prim, false, false, false⟩⟩) ∧
-    (∀ s ∈ ["book", "inner", "class"].dropLast, reserved s = false) := by decide
-
-/-- a reserved word that is NOT a keyword in a non-terminal position still works, through proto-plus's
-`_` fallback: `request.book.type.title` resolves although the class attribute is `type_` -/
-example : (match fieldsMappingP exSchema false exReq [["book", "type", "title"]] with
-    | .ok [e] => (decide (emitCheck [e] = .ok ()), resolveAttrs exSchema exReq e.keySegs == some (e.links.map (·.field)))
-    | _ => (false, false)) = (true, true) := by decide
-
-/-- **§9-F2**: a keyword in a non-terminal position.  The mapping exists (`get_field` resolves
-`import_`), the key is rendered as `import.title`, CPython rejects the emitted module. -/
-theorem key_attr_counterexample :
+/-- **regression for §9-F2** (`fix:` a0434d5): a keyword in a non-terminal position. The key is now
+rendered `import_.title`, the emitted `def` is accepted and the path resolves to the fields found. -/
+theorem keyword_segment_regression :
     (match fieldsMappingP exSchema false exReq [["import", "title"]] with
-     | .ok es => (es.map Entry.key, emitCheck es)
-     | .error _ => ([], .ok ())) = (["import.title"], .error (.keywordAttr "import.title")) := by decide
+     | .ok [e] => (e.key, decide (emitCheck [e] = .ok ()), resolveAttrs exSchema exReq e.keySegs == some (e.links.map (·.field)))
+     | _ => ("", false, false)) = ("import_.title", true, true) := by decide
+
+/-- a reserved word that is not a keyword (`type`) is suffixed in the same way -/
+example : (match fieldsMappingP exSchema false exReq [["book", "type", "title"]] with
+    | .ok [e] => (e.key, decide (emitCheck [e] = .ok ()))
+    | _ => ("", false)) = ("book.type_.title", true) := by decide
 
 /-- two keys, one parameter name: `tags` and `inner.tags` -/
 theorem duplicate_param_counterexample :
